@@ -53,13 +53,24 @@ fn require_both(mon: &mut Monitor, key: &str, min: u64) {
 
 const N_SHARDS: u64 = 64;
 
+/// Workload size by tier; `--workload-pct N` scales it (development / mutation experiments only —
+/// the `require` minimums are calibrated for 100 %).
+fn workload(args: &Args, quick: u64, thorough: u64) -> u64 {
+    let pct = args
+        .extra
+        .get("workload-pct")
+        .and_then(|v| v.parse::<u64>().ok())
+        .unwrap_or(100);
+    (args.scale(quick, thorough).saturating_mul(pct) / 100).max(1)
+}
+
 const ASSUME_SCALE: &str = "token amounts and prices are generated at the magnitudes of the repository's own tests (u64/9: amounts up to ~1e11 base units at prices 1..5000; u128/20: 9-decimal tokens at 1e7..1e14 price units), plus boundary / oversized amounts that the model must refuse; prices always satisfy 0 < min <= max";
 const ASSUME_ATOMIC: &str = "model actions other than Swap are driven with the program's revertible-buffer contract: the driver snapshots the market before the action and restores it on Err or panic";
 const ASSUME_EXP: &str = "price impact exponents are whole units (1, 2 or 3); non-unit exponents are documented as unsupported in crates/model/src/fixed.rs";
 
 fn run_swap(args: &Args, is_c04: bool) -> i32 {
     let rule = if is_c04 {
-        "C04. Cases: every swap().execute() inside random histories (seed deposits, then swaps in both directions mixed with deposits, withdrawals, position increases/decreases, clock advances, price moves with min<=max spreads, keeper re-configuration) over production-like and adversarial configurations (zero / 100 % / >100 % fees, positive impact factor > negative, exponent 1/2/3 units, tiny max_pool_amount / reserve factor, optional virtual inventory), both number widths. The swap is executed WITHOUT driver snapshot/restore. Oracle: success => (liquidity+swap_impact+claimable_fee) of token_in grows by exactly amount_in and of token_out shrinks by exactly report.token_out_amount, total supply / every other pool / clocks untouched, virtual inventory (if configured) moves by exactly the liquidity pool's deltas; Err => every pool, supply and clock bit-identical to the pre-state. Non-trivial = a successful swap, or a failure decided after the pool computations (not EmptySwap / invalid prices). distinct_nontrivial counts distinct behaviour classes: (width, direction, impact sign, capped, second-pool top-up, zero fee, virtual inventory, spread classes, log2 buckets of in/pool and out/pool) for successes and (width, failure reason, direction, virtual inventory, log2 bucket of in/pool) for failures."
+        "C04. Cases: every swap().execute() inside random histories (seed deposits, then swaps in both directions mixed with deposits, withdrawals, position increases/decreases, clock advances, price moves with min<=max spreads, keeper re-configuration) over production-like and adversarial configurations (zero / 100 % / >100 % fees, positive impact factor > negative, exponent 1/2/3 units, tiny max_pool_amount / reserve factor, optional virtual inventory), both number widths. The swap is executed WITHOUT driver snapshot/restore. Oracle: success => (liquidity+swap_impact+claimable_fee) of token_in grows by exactly amount_in and of token_out shrinks by exactly report.token_out_amount, total supply / every other pool / clocks untouched, virtual inventory (if configured) moves by exactly the liquidity pool's deltas; Err => every pool, supply and clock bit-identical to the pre-state. Non-trivial = a successful swap, or a failure decided after the pool computations (not EmptySwap / invalid prices). distinct_nontrivial counts distinct behaviour classes: (width, direction, impact sign, capped, second-pool top-up, zero fee, virtual inventory, spread classes, 4-bit-wide log2 buckets of in/pool and out/pool) for successes and (width, failure reason, direction, virtual inventory, log2 bucket of in/pool) for failures."
     } else {
         "C05. Cases: the same swap histories as C04 (random histories over production-like and adversarial configurations, min<=max price spreads, both number widths). Oracle (exact BigInt, no rounding slack): for every successful swap out*P_out.max <= in*P_in.min + F where F = (token_out-side swap-impact pool decrease)*P_out.max + (token_in-side swap-impact pool decrease)*P_in.min, both decreases read from the pool state before/after (the in-side decrease is the second-pool top-up of a capped positive impact, converted by the code at P_in.min like the input itself); when the charged fee is zero and the price impact is zero (and the impact pools did not move) out == floor(in*P_in.min / P_out.max). Non-trivial = a successful swap. distinct_nontrivial counts distinct behaviour classes (width, direction, impact sign, capped, top-up, zero fee, virtual inventory, spread classes, log2 buckets of in/pool and out/pool, frictionless)."
     };
@@ -67,7 +78,7 @@ fn run_swap(args: &Args, is_c04: bool) -> i32 {
     mon.assume(ASSUME_SCALE);
     mon.assume(ASSUME_ATOMIC);
     mon.assume(ASSUME_EXP);
-    let histories = args.scale(1_400, 16_000);
+    let histories = workload(args, 30_000, 330_000);
     let steps = 60;
     let tag = if is_c04 { 0xC04 } else { 0xC05 };
     run_shards(&mut mon, args.threads, N_SHARDS, |shard, m| {
@@ -82,21 +93,21 @@ fn run_swap(args: &Args, is_c04: bool) -> i32 {
             }
         }
     });
-    require_both(&mut mon, "swap_ok", 20_000);
-    require_both(&mut mon, "swap_fail", 5_000);
-    require_both(&mut mon, "swap_ok_positive_impact", 1_000);
-    require_both(&mut mon, "swap_ok_negative_impact", 1_000);
-    require_both(&mut mon, "capped_positive_impact_seen", 100);
-    require_both(&mut mon, "second_pool_topup_seen", 20);
-    require_both(&mut mon, "swap_ok_with_spread", 2_000);
+    require_both(&mut mon, "swap_ok", 2_000_000);
+    require_both(&mut mon, "swap_fail", 1_000_000);
+    require_both(&mut mon, "swap_ok_positive_impact", 400_000);
+    require_both(&mut mon, "swap_ok_negative_impact", 400_000);
+    require_both(&mut mon, "capped_positive_impact_seen", 40_000);
+    require_both(&mut mon, "second_pool_topup_seen", 10_000);
+    require_both(&mut mon, "swap_ok_with_spread", 1_000_000);
     if is_c04 {
-        require_both(&mut mon, "swap_fail: max_pool_amount_exceeded", 50);
-        require_both(&mut mon, "swap_fail: insufficient_reserve", 20);
-        require_both(&mut mon, "virtual_inventory_delta_checked", 500);
+        require_both(&mut mon, "swap_fail: max_pool_amount_exceeded", 50_000);
+        require_both(&mut mon, "swap_fail: insufficient_reserve", 5_000);
+        require_both(&mut mon, "virtual_inventory_delta_checked", 400_000);
     } else {
-        require_both(&mut mon, "exact_conversion_checked", 1_000);
-        require_both(&mut mon, "exact_conversion_checked_with_spread", 200);
-        require_both(&mut mon, "bound_checked_with_funded_positive_impact", 500);
+        require_both(&mut mon, "exact_conversion_checked", 400_000);
+        require_both(&mut mon, "exact_conversion_checked_with_spread", 300_000);
+        require_both(&mut mon, "bound_checked_with_funded_positive_impact", 300_000);
     }
     mon.finish()
 }
@@ -109,7 +120,7 @@ fn run_lp(args: &Args) -> i32 {
     mon.assume(ASSUME_EXP);
     mon.assume("deposit and withdrawal legs run right after the program's pre-execute (update_fees_state) at the same timestamp; the reference pool valuation is only defined for such states (borrowing and distribution clocks current)");
     mon.assume("the deposit leg is not asserted under the minimised/MaxAfterWithdrawal valuation: with max_pnl_factor_for_withdrawals < max_pnl_factor_for_deposits that valuation legitimately moves against existing LPs when pending pnl is between the two caps");
-    let histories = args.scale(1_000, 12_000);
+    let histories = workload(args, 22_000, 160_000);
     let steps = 50;
     run_shards(&mut mon, args.threads, N_SHARDS, |shard, m| {
         let mut rng = Rng::derive(args.seed, shard, 0xC06);
@@ -121,17 +132,17 @@ fn run_lp(args: &Args) -> i32 {
             }
         }
     });
-    require_both(&mut mon, "round_trip_completed", 10_000);
-    require_both(&mut mon, "round_trip_with_funded_positive_impact", 200);
-    require_both(&mut mon, "first_deposit_seen", 5_000);
-    require_both(&mut mon, "first_deposit_two_sided_seen", 500);
-    require_both(&mut mon, "others_value_checked deposit max/deposit", 10_000);
-    require_both(&mut mon, "others_value_checked withdraw min/withdrawal", 10_000);
-    require_both(&mut mon, "others_value_checked withdraw max/deposit", 10_000);
-    require_both(&mut mon, "leg_with_open_pnl", 1_000);
-    require_both(&mut mon, "leg_with_pending_borrowing", 500);
-    require_both(&mut mon, "leg_with_position_impact_pool", 500);
-    require_both(&mut mon, "pool_value_cross_checked", 20_000);
+    require_both(&mut mon, "round_trip_completed", 500_000);
+    require_both(&mut mon, "round_trip_with_funded_positive_impact", 50_000);
+    require_both(&mut mon, "first_deposit_seen", 90_000);
+    require_both(&mut mon, "first_deposit_two_sided_seen", 30_000);
+    require_both(&mut mon, "others_value_checked deposit max/deposit", 800_000);
+    require_both(&mut mon, "others_value_checked withdraw min/withdrawal", 700_000);
+    require_both(&mut mon, "others_value_checked withdraw max/deposit", 700_000);
+    require_both(&mut mon, "leg_with_open_pnl", 200_000);
+    require_both(&mut mon, "leg_with_pending_borrowing", 100_000);
+    require_both(&mut mon, "leg_with_position_impact_pool", 200_000);
+    require_both(&mut mon, "pool_value_cross_checked", 4_000_000);
     mon.finish()
 }
 
@@ -140,8 +151,8 @@ fn run_dist(args: &Args) -> i32 {
     let mut mon = Monitor::new(args, rule);
     mon.assume(ASSUME_ATOMIC);
     mon.assume("rate*elapsed is read as the code documents it: apply_factor(duration_in_seconds, distribute_factor) = floor(dt*factor/UNIT)");
-    let pure_cases = args.scale(600_000, 8_000_000);
-    let histories = args.scale(700, 8_000);
+    let pure_cases = workload(args, 3_000_000, 27_000_000);
+    let histories = workload(args, 4_000, 36_000);
     let steps = 60;
     run_shards(&mut mon, args.threads, N_SHARDS, |shard, m| {
         let mut rng = Rng::derive(args.seed, shard, 0xC14);
@@ -158,14 +169,14 @@ fn run_dist(args: &Args) -> i32 {
             }
         }
     });
-    require_both(&mut mon, "pending_ok", 1_000_000);
-    require_both(&mut mon, "distribute_ok", 50_000);
-    require_both(&mut mon, "distribute_repeated_immediately", 5_000);
-    require_both(&mut mon, "capped_at_excess_over_floor", 10_000);
-    require_both(&mut mon, "rate_limited", 10_000);
-    require_both(&mut mon, "started_below_floor", 10_000);
-    require_both(&mut mon, "zero_elapsed", 10_000);
-    require_both(&mut mon, "huge_elapsed", 10_000);
-    require_both(&mut mon, "pool_moved_by_position_action", 1_000);
+    require_both(&mut mon, "pending_ok", 9_000_000);
+    require_both(&mut mon, "distribute_ok", 300_000);
+    require_both(&mut mon, "distribute_repeated_immediately", 100_000);
+    require_both(&mut mon, "capped_at_excess_over_floor", 1_000_000);
+    require_both(&mut mon, "rate_limited", 1_000_000);
+    require_both(&mut mon, "started_below_floor", 2_000_000);
+    require_both(&mut mon, "zero_elapsed", 1_800_000);
+    require_both(&mut mon, "huge_elapsed", 3_000_000);
+    require_both(&mut mon, "pool_moved_by_position_action", 10_000);
     mon.finish()
 }
